@@ -70,6 +70,9 @@ func (g *agg) absorb(a, b *runOutcome) {
 }
 
 func (c *checker) writeEvidence() {
+	if os.Getenv("DST_EVIDENCE") == "0" {
+		return // sensitivity runs against deliberately broken trees must not overwrite evidence
+	}
 	wall := time.Since(c.t0).Seconds()
 	g := c.agg
 	requests, ticks, switches, mapDec, maxTicks := g.requests, g.ticks, g.switches, g.mapDec, g.maxTicks
